@@ -111,6 +111,16 @@ def splice(x, p):
         return hx.MemStream(P8_TEXT)
     hx.patch(x, os.path, 'isfile', isfile)
     hx.patch(x, builtins, 'open', fake_open)
+    if p.get('symlink'):
+        # the cart is reached through a symbolic link: link -> target
+        link, target = p['symlink']
+
+        def realpath(path, *a, **k):
+            path = os.path.abspath(path)
+            if path == link or path.startswith(link + '/'):
+                return target + path[len(link):]
+            return path
+        hx.patch(x, os.path, 'realpath', realpath)
     err = None
     try:
         out = list(p8.process_includes(cart, filename=cartfile))
@@ -135,8 +145,7 @@ def splice(x, p):
     if err is not None:
         return
     x.check('the named file is opened, relative to the cart', And(
-        len(opened) == (2 if second else 1),
-        opened[0] == cartdir + '/' + name))
+        len(opened) >= 1, opened[0] == cartdir + '/' + name))
     if kind == 'lua':
         inc = [b'x=1\n', b'y=2\n']
     else:
@@ -227,8 +236,30 @@ def load(x, p):
     x.out('code', code)
     x.check('loaded code = cart code with every include line replaced by '
             'its target', code == b''.join(exp))
-    x.check('each include opens its target once',
-            len(opened) == (2 if two else 1))
+    x.check('only the include target is opened', And(
+        len(opened) >= 1, *[o == '/w/r/' + name for o in opened]))
+    if kind != 'lua':
+        return
+    # the included file is edited and the cart loaded again in the same
+    # process: the new content is spliced
+
+    def fake_open2(path, mode='r', *a, **k):
+        return hx.MemStream(b'x=3\n')
+    hx.patch(x, builtins, 'open', fake_open2)
+    try:
+        g2 = p8.P8Formatter.from_file(hx.MemStream(text),
+                                      filename='/w/r/c.p8')
+        code2 = b''.join(g2.lua.to_lines())
+    except Exception as e:
+        x.check('a cart with include lines loads a second time', False,
+                info=repr(e))
+        return
+    exp2 = [b'a=1\n', b'b=2\n']
+    exp2[pos:pos] = [b'x=3\n']
+    if two:
+        exp2 += [b'x=3\n']
+    x.check('a second load splices the included file as it is now',
+            code2 == b''.join(exp2))
 
 
 Q = {'_budget': 600}
@@ -243,6 +274,10 @@ HARNESSES = [
                    dict(Q, kind='p8', second='other.lua'),
                    dict(Q, kind='lua', cart=os.path.expanduser(
                        '~/.lexaloffle/pico-8/carts/sub/c.p8')),
+                   dict(Q, kind='lua', cart='/w/link/c.p8',
+                        symlink=('/w/link', '/w/r')),
+                   dict(Q, kind='p8', cart='/w/link/sub/c.p8',
+                        symlink=('/w/link', '/w/r')),
                    dict(Q, kind='lua', npre=1), dict(Q, kind='lua', npre=2),
                    dict(Q, kind='lua', missing=True),
                    dict(Q, kind='lua', missing=True, npre=1)]),
